@@ -415,15 +415,51 @@ class C24(Prop):
     props_module = 'LokiModel.Props.C24'
     findings_module = 'LokiModel.Findings.C24'
     driver = 'Drivers/C24.lean'
-    theorems = []
+    theorems = ['C24_append_spec', 'C24_transform_eq_origins', 'C24_remove_eq_replaced', 'C24_remove_sub_transform',
+                'C24_append_eq_writes', 'C24_append_eq_written', 'C24_append_covers_written', 'C24_writer_sub_planner',
+                'C24_plan_eq_conversion', 'C24_plan_transform_remove_all', 'C24_transform_derived_partial',
+                'C24_outdir_name_only', 'C24_nooutdir_same_dir']
     design_ref = 'DESIGN.md 4.D C24'
-    level_text = ''
-    level_note = ''
-    technique = 'Lean 4 theorems about a hand-written model (on top of the C22 traversal model) + correspondence with the real planning and conversion runs'
-    rule = ''
-    trusted_base = []
-    assumptions = []
-    extra_obligations = []
+    level_text = ('Lean theorems for ALL traversals, file attributes and writer configurations about a model of '
+                  'FileWriteTransformation (_get_file_path, plan_file, transform_file) and of the CMakePlanTransformation.plan_file '
+                  'state machine, composed with the C22 model of as_filegraph/SFilter: C24_append_spec / C24_transform_eq_origins / '
+                  'C24_remove_eq_replaced give the three per-library lists exactly (in traversal order); C24_remove_sub_transform '
+                  '(every removed file is listed as transformed and has its replacement appended in the same library); '
+                  'C24_append_eq_writes (sources_to_append is a permutation of the sequence of files the conversion writes, for any '
+                  'duplicate-free traversals where the planner covers the writer and both runs select the same files) and '
+                  'C24_append_eq_written (under the explicit injectivity side condition KnownCollision = false it is duplicate free and '
+                  'equals the set of files existing afterwards; without it C24_append_covers_written: same members); '
+                  'C24_writer_sub_planner (from the C22 file-graph characterisation: every file the writer visits the planner visits) '
+                  'and C24_plan_eq_conversion (end to end for all item graphs of the two runs and all topological orders networkx '
+                  'may return, under the hypothesis SameSelection). _partial: C24_transform_derived_partial (transform = files the '
+                  'planned files derive from, outside KnownCreatedNotReplicated). Findings module (not gating): the de-duplication '
+                  'test never triggers; the full statements without injectivity / SameSelection / replicate are refuted by replayed '
+                  'witnesses. Tied to the code by running the real planning sequence (pipeline, FileWriteTransformation, '
+                  'CMakePlanTransformation; REGEX, full_parse=False) and the real conversion (full FP parse, files written into a '
+                  'mkdtemp directory, listing before/after) on generated projects and diffing the three lists per library, the '
+                  'written files and three class memberships with the Lean driver fed with the exported graphs; the direct oracle '
+                  'compares the real plan with the real directory diff and with origins/replaced files computed from the '
+                  "generator's layout and replicate flags.")
+    level_note = ('Item graphs after the pipeline (both runs), topological orders and per-file attributes (path split by pathlib, '
+                  'exists(), orig_path, replicate, lib, mode as left by _populate_filegraph) are exported from the real objects, not '
+                  'verified; paths are strings ($R = scratch root), rootpath handling (resolve().relative_to) is done by the '
+                  'abstraction function; DuplicateKernel / RemoveKernel / DependencyTransformation / ModuleWrapTransformation are not '
+                  'modelled themselves: the model is fed the graphs they leave behind, their plan-vs-convert agreement is checked by the '
+                  'oracle only (class convert-raises when the conversion raises); write_plan is compared textually with the lists '
+                  '(oracle); cyclic file graphs (C22 finding) and multi-pipeline mode are not generated.')
+    rule = ('C22 project generator (acyclic file placement, no externals) with files placed in src, src/a, src/b and 30% name clashes '
+            'across directories; configs: default/per-routine replicate and lib, default mode (None, idem, scc-hoist), disable/ignore/'
+            'block lists, extra seeds, strict; writer: suffix (None, .F90, .f90, empty), output_dir or not, rootpath or not, '
+            'include_module_var_imports; pipelines none / DependencyTransformation / ModuleWrap+Dependency / DuplicateKernel / '
+            'RemoveKernel; non-trivial = at least two appended files; distinct by request line')
+    trusted_base = ['harness/props/c24.py export() and real_runs() (abstraction of the two real runs, directory diff)',
+                    'harness/props/c24.py check_property (direct oracle)', 'C22 model of as_filegraph / SFilter (own correspondence)',
+                    'Lean driver evaluation of model definitions']
+    assumptions = ['different file items have different names; the sources lie below rootpath when one is given',
+                   'the file attributes are the same in the planning and the conversion run (exported separately, compared per run)',
+                   'FileWriteTransformation and CMakePlanTransformation are processed without a mode argument, as loki_transform does']
+    extra_obligations = ['oracle: real plan lists vs files actually written, origins and replaced files from ground truth, plan file text',
+                         'correspondence of the class predicates (collision, drift, created-not-replicated) with the harness classifiers']
 
     def tables(self):
         """constants of `_get_file_path` read from the source with ast"""
@@ -450,7 +486,7 @@ class C24(Prop):
                 'end LokiModel.C24.Tables\n'}
 
     def gen(self, rng, tier):
-        nproj = {'quick': 14, 'thorough': 150, 'search': 50}.get(tier, 14)
+        nproj = {'quick': 20, 'thorough': 150, 'search': 50}.get(tier, 20)
         per = {'quick': 3, 'thorough': 4, 'search': 3}.get(tier, 3)
         for _ in range(nproj):
             proj = c22.gen_project(rng, cyc_bias=0.0)
@@ -489,7 +525,7 @@ class C24(Prop):
 
     def canon_model(self, resp):
         if isinstance(resp, list) and resp and str(resp[0]) == 'ok':
-            return [sorted(x[1:]) and [x[0]] + sorted(x[1:]) if isinstance(x, list) and x and str(x[0]) == 'written' else x
+            return [[x[0]] + sorted(x[1:]) if isinstance(x, list) and x and str(x[0]) == 'written' else x
                     for x in resp]
         return resp
 
@@ -500,6 +536,29 @@ class C24(Prop):
     def classes(self):
         return ['output-collision', 'graph-drift', 'convert-raises', 'created-not-replicated']
 
+    def shrink_candidates(self, req):
+        """structure-preserving smaller requests (the oracle works from wcfg/pipeline/layout/extra/project alone)"""
+        keep = ('wcfg', 'broken', 'pipeline', 'layout', 'extra', 'project')
+        head = [x for x in req[1:] if isinstance(x, list) and str(x[0]) in keep]
+        if len(head) < len(req) - 1:
+            if not any(str(x[0]) == 'broken' for x in head):
+                head.insert(1, [A('broken')])
+            yield [req[0]] + head
+            return
+        for i, x in enumerate(req):
+            if not isinstance(x, list):
+                continue
+            if str(x[0]) == 'extra':
+                for j in range(3, len(x)):
+                    yield req[:i] + [x[:j] + x[j + 1:]] + req[i + 1:]
+            if str(x[0]) == 'pipeline' and str(x[1]) != 'none':
+                yield req[:i] + [[x[0], A('none')]] + req[i + 1:]
+            if str(x[0]) == 'project':
+                for k, y in enumerate(x):
+                    if isinstance(y, list) and str(y[0]) == 'config':
+                        for j in range(6, len(y)):
+                            yield req[:i] + [x[:k] + [y[:j] + y[j + 1:]] + x[k + 1:]] + req[i + 1:]
+
 
 PROP = C24()
-READY = False
+READY = True
